@@ -4,8 +4,8 @@ from .lib import *
 
 RULE = ("exhaustive product of the quantifier: versions {0.9,1.0,1.1,2,3} x 9 standard methods x Host {none, one, two original, "
         "non-text, one original + one added} x Content-Length {none,'5','0',two,'-1','abc','+5',non-text, 2^64} x Transfer-Encoding "
-        "{none, chunked, non-text} x send-body-despite-method x API {flow, flow with Flow::headers_map calls interleaved, Call::without_body, Call::with_body}; every script writes "
-        "twice (tiny and large buffer), asks readiness and tries to advance. both tiers enumerate the whole product. "
+        "{none, chunked, non-text, two fields chunked+gzip / gzip+chunked} x send-body-despite-method x API {flow, flow with Flow::headers_map calls interleaved, Call::without_body, Call::with_body}; every script writes "
+        "twice (tiny -- in a sub-product: empty -- and large buffer), asks readiness and tries to advance. both tiers enumerate the whole product. "
         "non-trivial = the first write was refused, or accepted with bytes emitted; distinct = distinct configurations")
 TRUSTED_BASE = COMMON_TRUSTED_BASE
 ASSUMPTIONS = ["absolute-URI requests with a host (requests without a host are outside the property)"]
@@ -15,7 +15,7 @@ _stats = {"invalid": 0, "valid": 0}
 VERSIONS = ["0.9", "1.0", "1.1", "2", "3"]
 HOSTS = ["none", "one", "two", "nontext", "orig+added"]
 CLS = ["none", "5", "0", "two", "-1", "abc", "+5", "nontext", "huge"]
-TES = ["none", "chunked", "nontext"]
+TES = ["none", "chunked", "nontext", "chunked+gzip", "gzip+chunked"]
 APIS = ["flow", "without", "with"]
 
 
@@ -28,7 +28,7 @@ def config_invalid(version, method, host, cl, te, despite, api):
         return True
     if cl in ("two", "-1", "abc", "+5", "nontext", "huge"):
         return True
-    framing = (cl in ("5", "0")) or te == "chunked"
+    framing = (cl in ("5", "0")) or te in ("chunked", "chunked+gzip", "gzip+chunked")
     takes_body = method in BODY_METHODS
     if api == "flow":
         if despite:
@@ -46,7 +46,7 @@ def config_invalid(version, method, host, cl, te, despite, api):
     return False
 
 
-def build(version, method, host, cl, te, despite, api, hm=False):
+def build(version, method, host, cl, te, despite, api, hm=False, zero_first=False):
     headers = []
     added = []
     if host == "one":
@@ -70,6 +70,10 @@ def build(version, method, host, cl, te, despite, api, hm=False):
         headers.append((b"Transfer-Encoding", b"chunked"))
     elif te == "nontext":
         headers.append((b"Transfer-Encoding", b"chunked\x80"))
+    elif te == "chunked+gzip":
+        headers += [(b"Transfer-Encoding", b"chunked"), (b"Transfer-Encoding", b"gzip")]      # two fields: any of them saying chunked means a body
+    elif te == "gzip+chunked":
+        headers += [(b"Transfer-Encoding", b"gzip"), (b"Transfer-Encoding", b"chunked")]
     args = request_args(method, version, "http", "a.test", "/p", headers)
     if api == "flow":
         ops = ["new " + args]
@@ -82,7 +86,7 @@ def build(version, method, host, cl, te, despite, api, hm=False):
             ops += ["proceed", "headers_map", "write_head #7", "q_can_proceed", "headers_map", "write_head #4096", "q_can_proceed", "write_head #4096",
                     "headers_map", "proceed"]
         else:
-            ops += ["proceed", "write_head #7", "q_can_proceed", "write_head #4096", "q_can_proceed", "write_head #4096", "proceed"]
+            ops += ["proceed", "write_head #0" if zero_first else "write_head #7", "q_can_proceed", "write_head #4096", "q_can_proceed", "write_head #4096", "proceed"]
     elif api == "without":
         ops = ["call_without " + args, "write_head #7", "q_is_finished", "write_head #4096", "q_is_finished", "write_head #4096"]
     else:
@@ -98,6 +102,8 @@ def generate(rng, tier, mult):
         out.append(build(version, method, host, cl, te, despite, api))
         if api == "flow":
             out.append(build(version, method, host, cl, te, despite, api, hm=True))
+            if te in ("none", "chunked") and cl in ("none", "5", "abc", "two"):
+                out.append(build(version, method, host, cl, te, despite, api, zero_first=True))   # the first write gets an EMPTY output buffer
     return out
 
 
